@@ -40,7 +40,8 @@ def variant(job):
         shutil.rmtree(tmp, ignore_errors=True)
 
 jobs = [("mech", t, f) for t in neutral_mut.TRANSFORMS if t != "reformat" for f in neutral_mut.FILES]
-jobs += [("diff", p, "") for p in sorted(glob.glob("/verif/neutral/*/patch.diff"))]
+EXCL = [a.split("=")[1] for a in sys.argv[1:] if a.startswith("--exclude-suffix=")]
+jobs += [("diff", p, "") for p in sorted(glob.glob("/verif/neutral/*/patch.diff")) if not any(os.path.dirname(p).endswith(x) for x in EXCL)]
 with cf.ThreadPoolExecutor(16) as ex:
     res = list(ex.map(variant, jobs))
 fired_any = {}
@@ -59,8 +60,9 @@ for i in range(1, 42):
         continue
     s = core.Src("/repo", canon=bool(getattr(m, "CANON", False)))
     ctx = core.Ctx(p.upper(), lenient=True)
+    ctx.src = s
     try:
-        m.check(ctx, s)
+        core.run_check(m, ctx, s)
     except Exception as e:
         print("!!", p, e)
     for inst in ctx.instances:
